@@ -22,6 +22,7 @@ META = dict(
 )
 
 CONFIGS_Q = [(2, 16, 8), (8, 2, 2), (64, 16, 1), (16, 1, 1)]       # (goroutines, GOMAXPROCS, rounds)
+BATCH = 150000        # events validated (and then dropped) at a time
 CONFIGS_T = [(2, 16, 30), (3, 2, 20), (8, 2, 10), (64, 16, 4), (16, 1, 6), (32, 4, 6)]
 
 
@@ -56,7 +57,22 @@ def family_codec(c, thorough):
     cp = os.path.join(c.scratch, "c19-codec-cases.ndjson")
     with open(cp, "w") as f:
         for x in cases: f.write(json.dumps(x, separators=(",", ":")) + "\n")
-    allev, origin = [], []
+    # all per-goroutine traces are validated; the operations are pure, so events are independent and can be sharded freely.
+    # Events are validated in batches and dropped (a thorough run writes millions of events).
+    batch, origin, seen, total = [], [], {}, [0]
+
+    def flush():
+        if not batch: return
+        mism = c.validate("Trace_C19", batch, shards=min(14, max(1, len(batch) // 400)))
+        for idx, t in mism:
+            tag, gid, i, n, procs, rounds = origin[idx]
+            seen[t[2]] = seen.get(t[2], 0) + 1
+            if seen[t[2]] > 2: continue
+            e = json.loads(batch[idx])
+            c.report("concurrent-" + e["op"], t[2], "goroutine %s of %d (GOMAXPROCS=%d), event %d: %s" % (gid, n, procs, i, t[2]),
+                     dict(config=dict(goroutines=n, gomaxprocs=procs, rounds=rounds, family="codec"), observed=e))
+        total[0] += len(batch)
+        del batch[:]; del origin[:]
     for n, procs, rounds in (CONFIGS_T if thorough else CONFIGS_Q):
         tag = "codec-%d-%d" % (n, procs)
         logdir = c.sub("race-" + tag)
@@ -71,25 +87,18 @@ def family_codec(c, thorough):
                      dict(config=dict(goroutines=n, gomaxprocs=procs, rounds=rounds, family="codec"), report=blk))
         files = sorted(f for f in os.listdir(logdir) if f.startswith("g.") and f.endswith(".ndjson"))
         if len(files) != n: raise Infra("expected %d goroutine traces, found %d" % (n, len(files)))
+        first_op = None
         for f in files:
             evs = read_ndjson(os.path.join(logdir, f))
+            os.unlink(os.path.join(logdir, f))
             gid = f.split(".")[1]
-            for i, ln in enumerate(evs):
-                allev.append(ln); origin.append((tag, gid, i, n, procs, rounds))
+            first_op = first_op or (json.loads(evs[0])["op"] if evs else None)
+            batch.extend(evs); origin.extend((tag, gid, i, n, procs, rounds) for i in range(len(evs)))
             c.count_distinct((tag, gid))
-        c.sample(dict(config=tag, goroutine_traces=len(files), first_op=json.loads(allev[-1])["op"]))
-    # all per-goroutine traces are validated; the operations are pure, so events are independent and can be sharded freely
-    mism = c.validate("Trace_C19", allev, shards=14)
-    seen = {}
-    for idx, t in mism:
-        tag, gid, i, n, procs, rounds = origin[idx]
-        seen[t[2]] = seen.get(t[2], 0) + 1
-        if seen[t[2]] > 2: continue
-        e = json.loads(allev[idx])
-        c.report("concurrent-" + e["op"], t[2], "goroutine %s of %d (GOMAXPROCS=%d), event %d: %s" % (gid, n, procs, i, t[2]),
-                 dict(config=dict(goroutines=n, gomaxprocs=procs, rounds=rounds, family="codec"), observed=e))
-    total = len(allev)
-    return total
+            if len(batch) >= BATCH: flush()
+        c.sample(dict(config=tag, goroutine_traces=len(files), first_op=first_op))
+    flush()
+    return total[0]
 
 
 # ---------------------------------------------------------------------------------------------------------------------
@@ -111,7 +120,7 @@ def prepare_pools(c, fams):
         return f.name, pool, res
 
     def drv(f):
-        d = c.build_driver(f.driver)
+        d = c.build_driver(f.driver, overlay=c._c19_overlay if f.driver == "ietypes" else None)
         evs = None
         if f.records:
             o = os.path.join(c.scratch, "c19-rec-%s.ndjson" % f.driver)
@@ -200,22 +209,84 @@ def run_conc(c, drv, fams, plans, n, procs, rounds, tag):
             if not os.path.exists(base + ".ndjson"): raise Infra("goroutine trace %s missing" % base)
             order = [int(ln.split()[0]) for ln in open(base + ".idx") if ln.strip()]
             rows.append((g, read_ndjson(base + ".ndjson"), order))
+            os.unlink(base + ".ndjson"); os.unlink(base + ".idx")
         traces[f.name] = rows
     return traces, lib, man, paths
 
 
 def family_others(c, thorough, fams, pools, drv):
     scale = 2 if thorough else 1
-    per_fam = {f.name: dict(events=[], origin=[], runs={}) for f in fams}       # origin: (tag, gid, index in that goroutine's trace)
-    races = {}
-    t_run = time.time()
-    first = True
-    for n, procs, rounds in (CONFIGS_T if thorough else CONFIGS_Q):
+    races, stats, seen = {}, {}, {}
+    clock = dict(run=0.0, val=0.0)
+    configs = CONFIGS_T if thorough else CONFIGS_Q
+
+    def fresh():
+        return {f.name: dict(events=[], origin=[], runs={}) for f in fams}      # origin: (tag, gid, index in that goroutine's trace)
+
+    def judge(f, acc):
+        cc = copy.copy(c); cc.cov = dict(states=0, transitions=0, traces_validated_against_impl=0)
+        evs = acc["events"]
+        t0 = time.time()
+        mism = cc.validate(f.trace, evs, shards=min(f.shards * (2 if thorough else 1), 14, max(1, len(evs) // 300)), timeout=3000) if evs else []
+        return f, acc, mism, cc.cov, time.time() - t0
+
+    def flush(pending):
+        """every per-goroutine trace gathered so far is judged by the family's own trace specification (families side by side)"""
+        t0 = time.time()
+        with ThreadPoolExecutor(max_workers=3) as ex:
+            results = list(ex.map(lambda f: judge(f, pending[f.name]), sorted(fams, key=lambda f: -len(pending[f.name]["events"]))))
+        for f, acc, mism, cov, wall in results:
+            for k in ("states", "transitions", "traces_validated_against_impl"): c.cov[k] += cov[k]
+            st = stats.setdefault(f.name, dict(judged_by=f.trace, events=0, validation_s=0.0, generator_s=round(pools[f.name]["wall"], 1),
+                                               pool=len(pools[f.name]["pool"]), recorded_cases=pools[f.name].get("recorded", 0)))
+            st["events"] += len(acc["events"]); st["validation_s"] = round(st["validation_s"] + wall, 1)
+            bad = []
+            for i, t in mism:
+                v = f.verdict(t)
+                if v is not None: bad.append((i, v, t))
+            if not bad: continue
+            # The sequential behaviour: the exact case order of that goroutine, repeated single-threaded in a fresh process.
+            # An event the sequential run writes identically is not a concurrency effect (the family's own finding).
+            seq_runs, same_line, nseq, nconc = {}, set(), 0, 0
+            for i, v, t in bad:
+                tag, g, k = acc["origin"][i]
+                line = acc["events"][i]
+                if line in same_line:
+                    nseq += 1; continue
+                run = acc["runs"][(tag, g)]
+                if (tag, g) not in seq_runs:
+                    if len(seq_runs) >= 120:
+                        raise Infra("%s: more than 120 goroutine traces with distinct mismatching events - not triaged" % f.name)
+                    seq_runs[(tag, g)] = run_seq(c, drv, f, run["cases"], run["order"], tag)
+                sq = seq_runs[(tag, g)]
+                if len(sq) == run["n"] and sq[k] == line:
+                    same_line.add(line); nseq += 1; continue
+                nconc += 1
+                seen[(f.name, v)] = seen.get((f.name, v), 0) + 1
+                if seen[(f.name, v)] > 2: continue
+                cfg = run["cfg"]
+                what = ("%s judged by %s: goroutine %d of %d (GOMAXPROCS=%d, %s), event %d: the result of %s is not the sequential specification's (%s), "
+                        "and the same cases run single-threaded in a fresh process give %s" % (
+                            f.name, f.trace, g, cfg["goroutines"], cfg["gomaxprocs"], cfg["schedule"], k, v[0], v[1] or "value",
+                            "a different event there" if len(sq) == run["n"] else "%d events instead of %d" % (len(sq), run["n"])))
+                c.report("concurrent-%s-%s" % (f.pid, v[0]), str(v[1]) or "wrong-result", what,
+                         dict(config=dict(cfg, family=f.name, goroutine=g, event=k), observed=json.loads(line) if len(line) < 4000 else line[:4000],
+                              sequential=(json.loads(sq[k]) if len(sq[k]) < 4000 else sq[k][:4000]) if k < len(sq) else None, mismatch=list(t),
+                              how="harness/cmd/conc runpar <manifest> <prefix> N rounds alternate (race build, other goroutines working on different values); "
+                                  "validate <prefix>.%s.<g>.ndjson with spec/trace/%s; conc runseq %s <cases> <prefix>.%s.<g>.idx out.ndjson gives the sequential events" % (f.name, f.trace, f.name, f.name)))
+            m = st.setdefault("mismatches", dict(total=0, also_sequential=0, concurrent_only=0))
+            m["total"] += len(bad); m["also_sequential"] += nseq; m["concurrent_only"] += nconc
+            if nseq:
+                c.note("%s: mismatching events on concurrent traces that a single-threaded run of the same cases writes identically are the finding of %s, not a concurrency effect (%d in one batch)" % (f.name, f.pid, nseq))
+        clock["val"] += time.time() - t0
+
+    pending, npend, first = fresh(), 0, True
+    for ci, (n, procs, rounds) in enumerate(configs):
         tag = "%d-%d" % (n, procs)
         plans = {}
         for f in fams:
             rng = random.Random("%d/%s/%s" % (c.seed, f.name, tag))
-            plans[f.name] = f.plan(pools[f.name]["pool"], rng, 1 if f.name in ("f06", "f07") else scale)
+            plans[f.name] = f.plan(pools[f.name]["pool"], rng, 1 if f.name in ("f06", "f07") else scale, wide=(n == 2))
         if first:
             first = False
             drifted = drift_guard(c, drv, fams, pools, plans, c.sub("drift"))
@@ -224,81 +295,34 @@ def family_others(c, thorough, fams, pools, drv):
             for m in drifted:        # development only: leave the family out, loudly
                 c.note("LEFT OUT (VERIF_C19_SKIP_DRIFTED): " + m)
                 fams = [f for f in fams if f.name != m.split(":")[0]]
+            pending = fresh()
             c.cov["drift_guard"] = "family driver replay == sequential run of the concurrent driver's copies, event by event: %s" % ", ".join(f.name for f in fams)
+        t0 = time.time()
         traces, lib, man, paths = run_conc(c, drv, fams, plans, n, procs, rounds, tag)
+        clock["run"] += time.time() - t0
         cfg = dict(goroutines=n, gomaxprocs=procs, rounds=rounds, schedule=mode_of(n, rounds))
         for blk in lib:
             races.setdefault(race_fn(blk), (cfg, blk))
         for f in fams:
-            acc = per_fam[f.name]
+            acc = pending[f.name]
             for g, evs, order in traces[f.name]:
-                acc["runs"][(tag, g)] = dict(events=evs, order=order, cases=paths[f.name], cfg=cfg)
+                acc["runs"][(tag, g)] = dict(n=len(evs), order=order, cases=paths[f.name], cfg=cfg)
                 acc["events"] += evs
                 acc["origin"] += [(tag, g, i) for i in range(len(evs))]
+                npend += len(evs)
                 c.count_distinct((f.name, tag, g))
         c.sample(dict(config="conc-" + tag, schedule=cfg["schedule"], goroutine_traces={f.name: len(traces[f.name]) for f in fams},
                       blocks={x["name"]: len(x["blocks"]) for x in man["families"]}))
-    t_run = time.time() - t_run
+        del traces
+        if npend >= BATCH or ci == len(configs) - 1:
+            flush(pending)
+            pending, npend = fresh(), 0
     for key, (cfg, blk) in sorted(races.items())[:6]:
         c.report("race", key, "data race reported by the race detector with %d goroutines, GOMAXPROCS=%d (families other than the codec)" % (cfg["goroutines"], cfg["gomaxprocs"]),
                  dict(config=dict(cfg, family="conc"), report=blk))
-    # ---- every per-goroutine trace is judged by the family's own trace specification (families side by side)
-    t_val = time.time()
-
-    def val(f):
-        cc = copy.copy(c); cc.cov = dict(states=0, transitions=0, traces_validated_against_impl=0)
-        evs = per_fam[f.name]["events"]
-        t0 = time.time()
-        mism = cc.validate(f.trace, evs, shards=min(f.shards * (2 if thorough else 1), 14, max(1, len(evs) // 300)), timeout=3000)
-        return f, mism, cc.cov, time.time() - t0
-    stats = {}
-    with ThreadPoolExecutor(max_workers=3) as ex:
-        results = list(ex.map(val, sorted(fams, key=lambda f: -len(per_fam[f.name]["events"]))))
-    for f, mism, cov, wall in results:
-        for k in ("states", "transitions", "traces_validated_against_impl"): c.cov[k] += cov[k]
-        acc = per_fam[f.name]
-        stats[f.name] = dict(judged_by=f.trace, events=len(acc["events"]), validation_s=round(wall, 1), generator_s=round(pools[f.name]["wall"], 1),
-                             pool=len(pools[f.name]["pool"]), recorded_cases=pools[f.name].get("recorded", 0))
-        bad = []
-        for i, t in mism:
-            v = f.verdict(t)
-            if v is not None: bad.append((i, v, t))
-        if not bad: continue
-        # The sequential behaviour: the exact case order of that goroutine, repeated single-threaded in a fresh process.
-        # An event the sequential run writes identically is not a concurrency effect (the family's own finding).
-        seq_runs, same_line, nseq, seen = {}, set(), 0, {}
-        for i, v, t in bad:
-            tag, g, k = acc["origin"][i]
-            line = acc["events"][i]
-            if line in same_line:
-                nseq += 1; continue
-            run = acc["runs"][(tag, g)]
-            if (tag, g) not in seq_runs:
-                if len(seq_runs) >= 120:
-                    raise Infra("%s: more than 120 goroutine traces with distinct mismatching events - not triaged" % f.name)
-                seq_runs[(tag, g)] = run_seq(c, drv, f, run["cases"], run["order"], tag)
-            sq = seq_runs[(tag, g)]
-            if len(sq) == len(run["events"]) and sq[k] == line:
-                same_line.add(line); nseq += 1; continue
-            seen[v] = seen.get(v, 0) + 1
-            if seen[v] > 2: continue
-            cfg = run["cfg"]
-            what = ("%s judged by %s: goroutine %d of %d (GOMAXPROCS=%d, %s), event %d: the result of %s is not the sequential specification's (%s), "
-                    "and the same cases run single-threaded in a fresh process give %s" % (
-                        f.name, f.trace, g, cfg["goroutines"], cfg["gomaxprocs"], cfg["schedule"], k, v[0], v[1] or "value",
-                        "a different event there" if len(sq) == len(run["events"]) else "%d events instead of %d" % (len(sq), len(run["events"]))))
-            c.report("concurrent-%s-%s" % (f.pid, v[0]), str(v[1]) or "wrong-result", what,
-                     dict(config=dict(cfg, family=f.name, goroutine=g, event=k), observed=json.loads(line) if len(line) < 4000 else line[:4000],
-                          sequential=(json.loads(sq[k]) if len(sq[k]) < 4000 else sq[k][:4000]) if k < len(sq) else None, mismatch=list(t),
-                          how="harness/cmd/conc runpar <manifest> <prefix> N rounds alternate (race build, other goroutines working on different values); "
-                              "validate <prefix>.%s.<g>.ndjson with spec/trace/%s; conc runseq %s <cases> <prefix>.%s.<g>.idx out.ndjson gives the sequential events" % (f.name, f.trace, f.name, f.name)))
-        stats[f.name]["mismatches"] = dict(total=len(bad), also_sequential=nseq, concurrent_only=sum(seen.values()))
-        if nseq:
-            c.note("%s: %d mismatching events on concurrent traces are written identically by a single-threaded run of the same cases (the finding of %s, not a concurrency effect)" % (f.name, nseq, f.pid))
-    t_val = time.time() - t_val
     c.cov["families"] = stats
-    c.cov["conc_run_s"] = round(t_run, 1); c.cov["conc_validation_s"] = round(t_val, 1)
-    return sum(len(per_fam[f.name]["events"]) for f in fams)
+    c.cov["conc_run_s"] = round(clock["run"], 1); c.cov["conc_validation_s"] = round(clock["val"], 1)
+    return sum(st["events"] for st in stats.values())
 
 
 def sec_included(c):
@@ -306,6 +330,13 @@ def sec_included(c):
     need = ["spec/mc/MC_C06_gen.tla", "spec/mc/MC_C06_gen.cfg", "spec/mc/MC_C07_gen.cfg", "spec/trace/Trace_C06.tla", "spec/trace/Trace_C07.tla",
             "harness/cmd/sec/main.go", "tools/checks/c06.py", "tools/checks/c07.py"]
     return all(os.path.exists(os.path.join(VERIF, p)) for p in need) and not os.environ.get("VERIF_C19_NOSEC")
+
+
+def ie_included(c):
+    """IE accessors join when their files are there (registry generated from tables/ie_fields.json at check time)"""
+    need = ["spec/mc/MC_C09_gen.tla", "spec/mc/MC_C09_gen.cfg", "spec/trace/Trace_C09.tla", "harness/cmd/ietypes/main.go", "harness/cmd/conc/f09/f09.go",
+            "tables/ie_fields.json", "tools/checks/c09.py"]
+    return all(os.path.exists(os.path.join(VERIF, p)) for p in need) and not os.environ.get("VERIF_C19_NOIE")
 
 
 def run(c):
@@ -316,8 +347,20 @@ def run(c):
     if res.violated != "ResultsSequential":
         raise Infra("the broken library variant was not rejected by the model: the property would be vacuous")
     c.cov["binding_selftest"] = "broken variant (argument parked in a package-level cell) violates ResultsSequential in the model"
-    fams = c19fam.families(with_sec=sec_included(c))
-    conc = c.build_driver("conc", race=True)           # first build: copies the harness (not thread-safe), before any thread starts
+    with_ie = ie_included(c)
+    fams = c19fam.families(with_sec=sec_included(c), with_ie=with_ie)
+    c._c19_overlay = None
+    if with_ie:      # the constructor registry of the IE types: generated plumbing, given to the builds as an overlay
+        hd = os.path.join(c.scratch, "harness")
+        reg = {}
+        for pkg, rel in (("f09", "cmd/conc/f09/reg_gen.go"), ("main", "cmd/ietypes/reg_gen.go")):
+            src = os.path.join(c.scratch, "reg_gen_%s.go" % pkg)
+            with open(src, "w") as fh: fh.write(c19fam.F09.registry(pkg))
+            reg[os.path.join(hd, rel)] = src
+        c._c19_overlay = os.path.join(c.scratch, "c19-overlay.json")
+        json.dump({"Replace": reg}, open(c._c19_overlay, "w"))
+    # first build: copies the harness (not thread-safe), before any thread starts
+    conc = c.build_driver("conc", race=True, tags="verif,c19ie" if with_ie else "verif", overlay=c._c19_overlay)
     with ThreadPoolExecutor(max_workers=1) as ex:
         fut = ex.submit(prepare_pools, c, fams)         # the families' generators work while the codec family runs
         total = family_codec(c, thorough)
